@@ -41,7 +41,6 @@ package trie
 import (
 	"bytes"
 	"fmt"
-	"os"
 	"sort"
 	"strings"
 	"testing"
@@ -1698,14 +1697,12 @@ func (c *vf7Case) rangeProofs() {
 			}
 		}
 	}
-	// 2b. OPT-IN (VERIF_C07_OOR=1), not part of the default oracle: a bogus entry OUTSIDE
-	// [firstKey,lastKey]. VerifyRangeProof assumes firstKey <= keys[0] and keys[n-1] <= lastKey
-	// and does not check it (its only caller, kai/state/snapshot/generate.go:282, guarantees it by
-	// construction). On the unchanged code an entry outside the edges whose path runs into an
-	// unresolved hash node makes tr.Update fail with a MissingNodeError that proof.go:573-575
-	// ignores, so the bogus pair is silently accepted; right of lastKey it can additionally make
-	// hasRightElement panic on a hash node (proof.go:444).
-	if os.Getenv("VERIF_C07_OOR") == "1" && n >= 3 {
+	// 2b. a bogus entry OUTSIDE [firstKey,lastKey] must be refused. Before the repair of C07-R1
+	// VerifyRangeProof did not check firstKey <= keys[0] and keys[n-1] <= lastKey: an entry
+	// outside the edges whose path runs into an unresolved hash node made tr.Update fail with a
+	// MissingNodeError that was ignored, so the bogus pair was silently accepted; right of
+	// lastKey it could additionally make hasRightElement panic on a hash node.
+	if n >= 3 {
 		i := 1 + r.Intn(n-2)
 		j := i + r.Intn(n-1-i)
 		if proof, ok := c.edgeProof(all[i].k, all[j].k); ok {
